@@ -255,6 +255,20 @@ class _Spell(ast.NodeTransformer):
         f = n.func
         d = _dotted(f)
         kw = {k.arg: k.value for k in n.keywords if k.arg}
+        # f(**(A | B)) is f(**{**A, **B}): a new mapping in which the right operand wins (dict union, Python ≥ 3.9)
+        for k_ in n.keywords:
+            if k_.arg is None and isinstance(k_.value, ast.BinOp) and isinstance(k_.value.op, ast.BitOr):
+                parts, todo = [], [k_.value]
+                while todo:
+                    x_ = todo.pop()
+                    if isinstance(x_, ast.BinOp) and isinstance(x_.op, ast.BitOr):
+                        todo += [x_.right, x_.left]
+                    else:
+                        parts.append(x_)
+                k_.value = ast.copy_location(ast.Dict(keys=[None] * len(parts), values=parts), k_.value)
+        # np.issubdtype(T, np.bool_) is np.issubdtype(T, bool): the builtin is converted to the numpy scalar type first
+        if d in ("np.issubdtype", "numpy.issubdtype") and len(n.args) == 2 and _dotted(n.args[1]) in ("np.bool_", "numpy.bool_", "np.bool", "numpy.bool"):
+            n.args[1] = ast.copy_location(ast.Name(id="bool", ctx=ast.Load()), n.args[1])
         # typing.cast(T, x) -> x
         if d in ("cast", "typing.cast") and len(n.args) == 2 and not n.keywords:
             return n.args[1]
@@ -372,6 +386,47 @@ def _with_form(block):
     for s in block:
         for b in _blocks(s):
             _with_form(b)
+
+
+def _shape_enumerate_form(fn):
+    """for i, n in enumerate(G.shape): … n …   ->   for i in range(len(G.shape)): … G.shape[i] …
+    (`shape` is a tuple of integers by the numpy / grid contract, so indexing it again gives the value the loop handed out;
+    applied only when n is never rebound and G is not rebound in the loop)"""
+    for lp in ast.walk(fn):
+        if not (isinstance(lp, ast.For) and isinstance(lp.iter, ast.Call) and isinstance(lp.iter.func, ast.Name) and lp.iter.func.id == "enumerate"
+                and len(lp.iter.args) == 1 and not lp.iter.keywords and isinstance(lp.target, ast.Tuple) and len(lp.target.elts) == 2
+                and all(isinstance(e, ast.Name) for e in lp.target.elts)):
+            continue
+        seq = lp.iter.args[0]
+        if not (isinstance(seq, ast.Attribute) and seq.attr == "shape"):
+            continue
+        root = seq
+        while isinstance(root, ast.Attribute):
+            root = root.value
+        if not isinstance(root, ast.Name):
+            continue
+        iv, vv = lp.target.elts[0].id, lp.target.elts[1].id
+        stored = {n.id for b in lp.body + lp.orelse for n in ast.walk(b) if isinstance(n, ast.Name) and isinstance(n.ctx, (ast.Store, ast.Del))}
+        if vv in stored or iv in stored or root.id in stored:
+            continue
+        # the value variable must not be read after the loop
+        later = False
+        for n in ast.walk(fn):
+            if isinstance(n, ast.Name) and n.id == vv and isinstance(n.ctx, ast.Load) and getattr(n, "lineno", 0) > getattr(lp, "end_lineno", 10 ** 9):
+                later = True
+        if later:
+            continue
+
+        class _R(ast.NodeTransformer):
+            def visit_Name(self, n):
+                if n.id == vv and isinstance(n.ctx, ast.Load):
+                    return ast.copy_location(ast.Subscript(value=copy.deepcopy(seq), slice=ast.Name(id=iv, ctx=ast.Load()), ctx=ast.Load()), n)
+                return n
+
+        lp.body = [_R().visit(b) for b in lp.body]
+        lp.orelse = [_R().visit(b) for b in lp.orelse]
+        lp.target = ast.copy_location(ast.Name(id=iv, ctx=ast.Store()), lp.target)
+        lp.iter = ast.copy_location(ast.Call(func=ast.Name(id="range", ctx=ast.Load()), args=[ast.Call(func=ast.Name(id="len", ctx=ast.Load()), args=[copy.deepcopy(seq)], keywords=[])], keywords=[]), lp.iter)
 
 
 def _sentinel_test(test, var):
@@ -696,6 +751,18 @@ def _class_lookup_form(tree):
     return _R().visit(tree)
 
 
+class _PlainLocals(ast.NodeTransformer):
+    """x: T = v  ->  x = v  for local variables of functions (the annotation of a local has no run-time effect)"""
+
+    def visit_ClassDef(self, n):
+        return n  # class-level annotations declare fields (NamedTuple, dataclass)
+
+    def visit_AnnAssign(self, n):
+        if isinstance(n.target, ast.Name) and n.value is not None and n.simple:
+            return ast.copy_location(ast.Assign(targets=[n.target], value=n.value, type_comment=None), n)
+        return n
+
+
 def prenormalize(tree: ast.Module) -> ast.Module:
     tree = propagate_module_constants(tree)
     tree = _Spell().visit(tree)
@@ -706,10 +773,12 @@ def prenormalize(tree: ast.Module) -> ast.Module:
         if isinstance(fn, (ast.FunctionDef, ast.AsyncFunctionDef)):
             _with_form(fn.body)
             _for_form(fn.body)
+            _shape_enumerate_form(fn)
             _while_form(fn.body)
             _continue_form(fn.body)
             _forelse_form(fn.body)
             _inline_test_temps(fn)
+            fn.body = [_PlainLocals().visit(b) for b in fn.body]
     _property_form(tree)
     _flatten_private_bases(tree)
     ast.fix_missing_locations(tree)
